@@ -23,11 +23,12 @@ def _strategy():
     ln = st.one_of(st.sampled_from(LENS), st.integers(1, 60))
     call = st.builds(
         lambda t, n, kind, dp, pf1, pf2, ps, prio, lim, fbff, ctx, a: {
-            "t_ms": t, "n": n, "kind": kind, "dp": dp, "pf": pf2 if kind == "bc2" else pf1, "ps": ps, "prio": prio,
+            "t_ms": t, "n": n, "kind": kind, "dp": dp, "pf": pf2 if kind == "bc2" else (pf1 if (dp == 1 or pf1 not in RESERVED_PF) else 0xB0), "ps": ps, "prio": prio,
             "limit_ms": lim, "fmt": "FBFF" if (fbff and kind in ("bc1", "bc2")) else "FEFF", "ctx": ctx, "a": a},
         st.sampled_from([0, 0, 0, 1, 2, 5, 10, 50, 100, 250, 1000, 4000]), ln,
         st.sampled_from(["d1", "d1", "d2", "bc1", "bc2", "bc2"]), st.integers(0, 1),
-        st.integers(0, 239).filter(lambda x: x not in RESERVED_PF), st.integers(240, 255), st.integers(0, 255),
+        # (the protocol's own PDU formats are reserved on data page 0 only; on data page 1 they are ordinary groups)
+        st.one_of(st.integers(0, 239), st.integers(0, 239), st.sampled_from(sorted(RESERVED_PF))), st.integers(240, 255), st.integers(0, 255),
         st.integers(0, 7), st.sampled_from([0, 0, 1, 2, 5, 10, 20, 50, 100, 200]), st.sampled_from([False, False, False, True]),
         st.sampled_from(["app", "app", "timer"]), st.integers(0, 255))
     return st.fixed_dictionaries({
